@@ -454,32 +454,37 @@ func zzOps() {
 	}
 	dm, ds, f := zzSetup(shape, n0, fillMode, prefix, raw, chunk, width)
 
-	// Assertion ids carry a suffix once a Write has been issued at a position that was established by Read
-	// (and not by Seek/Write/WriteAt since): that failure class is kept apart from all others.
-	posBy, tag := "init", ""
-	id := func(what string) string { return "C10.ops-" + what + tag }
+	// How the current offset was last established. A Write (or a WriteAt at the current offset) issued while
+	// the offset stems from Read is checked right away for landing at that offset (white box: the pending
+	// buffer must end at the current offset); this one failure class has its own assertion id and ends the
+	// path there.
+	posBy := "init"
+	id := func(what string) string { return "C10.ops-" + what }
+	bufferAtOffset := func() bool {
+		return dm.wrBuf == nil || dm.writeStart+uint64(dm.wrBuf.Len()) == dm.curWrOff
+	}
 
 	for step := 0; step < K; step++ {
 		op := zzOpNames[verifrt.NondetRange("op", verifrt.Param("OPLO", 0), verifrt.Param("OPHI", len(zzOpNames)-1))]
 		switch op {
 		case "Write":
-			if posBy == "Read" {
-				tag = "-write-after-read"
-			}
 			b := zzOpBytes(fillMode, verifrt.NondetRange("n", 1, 2), step)
 			n, err := dm.Write(b)
 			verifrt.Assert(id("write-return"), err == nil && n == len(b))
+			if posBy == "Read" {
+				verifrt.Assert("C10.ops-write-after-read-position", bufferAtOffset())
+			}
 			f.writeAt(b, f.pos)
 			f.pos += len(b)
 			posBy = "Write"
 		case "WriteAt":
-			if posBy == "Read" {
-				tag = "-write-after-read"
-			}
 			b := zzOpBytes(fillMode, zzPick("n", []int{1, 2}, []int{1}), step)
 			off := zzPick("off", zzSpan(0, len(f.data)+2), []int{0, max(len(f.data)-1, 0), len(f.data) + 1})
 			n, err := dm.WriteAt(b, int64(off))
 			verifrt.Assert(id("writeat-return"), err == nil && n == len(b))
+			if posBy == "Read" {
+				verifrt.Assert("C10.ops-write-after-read-position", bufferAtOffset())
+			}
 			f.writeAt(b, off)
 			// offset after WriteAt: unchanged (pwrite) or just past the written bytes (seek+write)
 			after := int(dm.curWrOff)
